@@ -4,7 +4,7 @@
    entries by pointer) is checked by execution only (the harness snapshots every log). *)
 From Coq Require Import List ZArith Bool Lia Permutation.
 From IpfsLog Require Import Model.System Proofs.OmapProofs Proofs.Inv Proofs.SysProofs Proofs.StepProofs
-     Proofs.TravProofs Proofs.TimeProofs Proofs.ValuesProofs.
+     Proofs.TravProofs Proofs.TimeProofs Proofs.ValuesProofs Proofs.PInv Proofs.PJoin Proofs.PSys.
 Import ListNotations.
 Open Scope Z_scope.
 
@@ -26,6 +26,18 @@ Proof.
   intros k v G. apply oget_In in G.
   assert (SI' : sinv (fst (step (run_from empty_sys ops) o))) by (apply sinv_step; auto).
   destruct SI' as [_ IL']. apply In_oget; [apply (li_nodup _ _ (IL' r l' H1))|auto].
+Qed.
+
+(* merging ANY other log object - no assumption on it: forged entries, entries filed under keys that
+   are not their hashes, arbitrary heads - into a replica of any history never removes or replaces an
+   entry the replica holds (the merge may fail or add entries, it never touches held ones) *)
+Theorem C05_merge_of_any_log_keeps_held_entries ops r l o same size l' out :
+  pwf ops -> nth_error (s_logs (run ops)) r = Some l -> size < 0 ->
+  join l o same size = (l', out) ->
+  forall k v, In (k, v) (l_entries l) -> In (k, v) (l_entries l').
+Proof.
+  intros W L Hs J. destruct (psinv_run ops W) as [_ IL].
+  exact (join_keeps_held_entries _ l o same size l' out (IL r l L) Hs J).
 Qed.
 
 (* an operation on one replica never alters another replica *)
@@ -82,6 +94,7 @@ Example C05_nonvacuous : wf (firstn 9 ex_hist ++ skipn 9 ex_hist) /\ length (s_l
 Proof. split; [apply wfb_wf; vm_compute; reflexivity|reflexivity]. Qed.
 
 Print Assumptions C05_entries_never_vanish.
+Print Assumptions C05_merge_of_any_log_keeps_held_entries.
 Print Assumptions C05_other_replicas_untouched.
 Print Assumptions C05_monotone_over_histories.
 Print Assumptions C05_values_subsequence.
